@@ -270,7 +270,8 @@ def run_history(ops, rec, targets):
         elif kind == 'filter':
             kw = op[1]
             try:
-                ndb = db.filtered_context(**kw)
+                # the deprecated spelling filter_context() is documented as the same method
+                ndb = (db.filter_context if step % 3 == 2 else db.filtered_context)(**kw)
             except Exception as e:
                 return 'step %d: filtered_context(%r) raised %s: %s (categories %r)' % (
                     step, kw, type(e).__name__, e, db.categories())
